@@ -1,6 +1,8 @@
 import JominiModel.Model.TextTape
 import JominiModel.Spec.TextTape
 import JominiModel.Proofs.TextTape
+import JominiModel.Proofs.TextTapeWf
+import JominiModel.Proofs.TextTapeCut
 import JominiModel.Generated.Tables
 /-
 C01 — Text tape mirrors the document's structure regardless of layout.
@@ -84,5 +86,33 @@ theorem C01_step_blank_parseopen_open (w rest : Bytes) (hw : Blank w) (st : St) 
     ∃ st', stepParseOpen st (123 :: (w ++ rest)) = .cont st' (123 :: (w ++ rest)) ∧
            stepParseOpen st (123 :: rest) = .cont st' (123 :: rest) :=
   stepParseOpen_open_blank hw st rest
+
+/-! ### C06 (text half) and C19 (text lexemes): stated in `Proofs/TextTapeWf.lean` /
+`Proofs/TextTapeCut.lean` under their own names, repeated here so that this check audits them. -/
+
+/-- `wfTextTape` (the checker `wftext` runs on every parsed tape) is the declarative
+`WfTextTape`: links both ways, no index 0, no crossing containers, scalars are input
+sub-slices with strictly increasing starts. -/
+theorem C01_C06_text_checker_sound (input : Bytes) (toks : List Tok) :
+    wfTextTape input toks = true ↔ WfTextTape input toks :=
+  C06_text_checker_sound input toks
+
+/-- a quoted scalar obtained from a truncated input is the scalar of the whole input at that
+place (never extended), and its closing quote lies inside the prefix. -/
+theorem C01_C19_quote_not_extended (d : Bytes) (k : Nat) (s rest : Bytes)
+    (h : parseQuoteScalar (d.take k) = .ok (s, rest)) :
+    parseQuoteScalar d = .ok (s, rest ++ d.drop k) ∧ s.length + 2 ≤ k :=
+  C19_quote_not_extended d k s rest h
+
+/-- an unquoted scalar obtained from a truncated input is a prefix of the scalar of the whole
+input at that place, equal to it unless it reaches the cut, and never spans a boundary byte. -/
+theorem C01_C19_scalar_not_merged (d : Bytes) (k : Nat) (s rest : Bytes)
+    (h : splitAtScalar (d.take k) = some (s, rest)) :
+    ∃ s' rest', splitAtScalar d = some (s', rest') ∧ s <+: s' ∧ (s = s' ∨ rest = []) ∧
+      ∀ i (hi : i < s.length), 0 < i → isBoundary s[i] = false :=
+  C19_scalar_not_merged C01_tables_sse_eq_tab d k s rest h
+
+/-- `ab=c` cut after `a`. -/
+example : splitAtScalar (([97, 98, 61, 99] : Bytes).take 1) = some ([97], []) := by decide +kernel
 
 end Jomini.Props.C01
